@@ -62,6 +62,8 @@ def run_replay(path, timeout=120):
     """Replay scripts exit 1 when the defect is present, 0 when the library behaves."""
     env = dict(os.environ)
     env.pop('PYTHONPATH', None)
+    if os.environ.get('VERIF_SRC'):
+        env['PYTHONPATH'] = os.environ['VERIF_SRC']     # development aid (seeded/try_wt.sh): the tree under test is a scratch worktree, not /repo
     try:
         r = subprocess.run([REPLAY_PY, path], capture_output=True, text=True, timeout=timeout, env=env, cwd='/')
     except subprocess.TimeoutExpired:
